@@ -1,0 +1,8 @@
+//go:build !verif
+
+package sample
+
+import "github.com/cronokirby/saferith"
+
+// paillierPrimeHook is a no-op in normal builds (see hook_verif.go).
+func paillierPrimeHook() (p, q *saferith.Nat, ok bool) { return nil, nil, false }
